@@ -202,4 +202,95 @@ theorem isArgsortRow_self_first (row : List V) (p : List Nat) (h : isArgsortRow 
     rw [hstrict _ hc0 hne] at this
     exact Bool.false_ne_true this
 
+/-! ### `missing_values=True`: states with missing values at `+inf` -/
+
+theorem zipWith_absdiff_isSome : ∀ (a b : List V), (∀ x ∈ a, x.isSome = true) →
+    (∀ x ∈ b, x.isSome = true) → ∀ t ∈ List.zipWith absdiff a b, t.isSome = true
+  | [], _, _, _ => by simp
+  | _ :: _, [], _, _ => by simp
+  | x :: a, y :: b, ha, hb => by
+    intro t ht
+    simp only [List.zipWith_cons_cons, List.mem_cons] at ht
+    rcases ht with rfl | ht
+    · obtain ⟨x', rfl⟩ := Option.isSome_iff_exists.mp (ha x List.mem_cons_self)
+      obtain ⟨y', rfl⟩ := Option.isSome_iff_exists.mp (hb y List.mem_cons_self)
+      simp [absdiff]
+    · exact zipWith_absdiff_isSome a b (fun z hz => ha z (List.mem_cons_of_mem _ hz))
+        (fun z hz => hb z (List.mem_cons_of_mem _ hz)) t ht
+
+theorem fold_isSome (f : V → V → V)
+    (hf : ∀ acc t, acc.isSome = true → t.isSome = true → (f acc t).isSome = true) :
+    ∀ (ds : List V) (acc : V), acc.isSome = true → (∀ t ∈ ds, t.isSome = true) →
+    (ds.foldl f acc).isSome = true
+  | [], acc, h, _ => by simpa using h
+  | t :: ds, acc, h, hd => by
+    rw [List.foldl_cons]
+    exact fold_isSome f hf ds _ (hf acc t h (hd t List.mem_cons_self))
+      (fun t' ht' => hd t' (List.mem_cons_of_mem _ ht'))
+
+/-- the distance of two states without missing values is a number -/
+theorem dist_isSome (m : Metric) (a b : List V) (ha : ∀ x ∈ a, x.isSome = true)
+    (hb : ∀ x ∈ b, x.isSome = true) : (dist m a b).isSome = true := by
+  unfold dist
+  refine fold_isSome _ ?_ _ (some 0) rfl (zipWith_absdiff_isSome a b ha hb)
+  intro acc t h1 h2
+  obtain ⟨x, rfl⟩ := Option.isSome_iff_exists.mp h1
+  obtain ⟨y, rfl⟩ := Option.isSome_iff_exists.mp h2
+  cases m
+  · simp [addV]
+  · simp [addV, mulV]
+  · simp only; split <;> simp
+
+theorem complete_row (emb : List (List V)) (i : Nat) (hi : i < emb.length)
+    (h : (missingMask emb).getD i false = false) : ∀ x ∈ rowOf emb i, x.isSome = true := by
+  simp only [missingMask, List.getD_eq_getElem?_getD, List.getElem?_map,
+    List.getElem?_eq_getElem hi, Option.map_some, Option.getD_some] at h
+  simp only [rowOf, List.getD_eq_getElem?_getD, List.getElem?_eq_getElem hi, Option.getD_some]
+  intro x hx
+  rw [List.any_eq_false] at h
+  have := h x hx
+  cases x <;> simp_all
+
+theorem rpEntry_isSome (m : Metric) (emb : List (List V)) (i j : Nat) (hi : i < emb.length)
+    (hj : j < emb.length) (h1 : (missingMask emb).getD i false = false)
+    (h2 : (missingMask emb).getD j false = false) : (rpEntry m emb i j).isSome = true := by
+  unfold rpEntry
+  split
+  · exact dist_isSome m _ _ (complete_row emb i hi h1) (complete_row emb j hj h2)
+  · split
+    · exact dist_isSome m _ _ (complete_row emb j hj h2) (complete_row emb i hi h1)
+    · rfl
+
+theorem leV_none_left (y : V) (h : leV none y = true) : y = none := by
+  cases y <;> simp_all [leV]
+
+/-- in a sorted row the numbers come first: position `k` below the number of non-`none`
+entries holds a number -/
+theorem sorted_isSome_of_lt_countP (s : List V)
+    (hs : s.Pairwise (fun a b => leV a b = true)) (k : Nat)
+    (hk : k < s.countP Option.isSome) : ∃ x, s[k]? = some (some x) := by
+  have hlen : k < s.length := Nat.lt_of_lt_of_le hk List.countP_le_length
+  cases hv : s[k] with
+  | some x => exact ⟨x, by rw [List.getElem?_eq_getElem hlen, hv]⟩
+  | none =>
+    exfalso
+    have hdrop : s.drop k = none :: s.drop (k + 1) := by
+      rw [← hv]; exact List.drop_eq_getElem_cons hlen
+    have hp : (none :: s.drop (k + 1)).Pairwise (fun a b => leV a b = true) := by
+      rw [← hdrop]; exact List.Pairwise.sublist (List.drop_sublist k s) hs
+    have h0 : (s.drop k).countP Option.isSome = 0 := by
+      rw [List.countP_eq_zero]
+      intro d hd
+      rw [hdrop] at hd
+      rcases List.mem_cons.mp hd with rfl | hmem
+      · simp
+      · have := leV_none_left d ((List.pairwise_cons.mp hp).1 d hmem)
+        simp [this]
+    have e : s.countP Option.isSome = (s.take k).countP Option.isSome := by
+      conv => lhs; rw [← List.take_append_drop k s]
+      rw [List.countP_append, h0]; simp
+    have h1 : (s.take k).countP Option.isSome ≤ k :=
+      Nat.le_trans List.countP_le_length (by simp; omega)
+    omega
+
 end Pyunicorn.Recurrence
